@@ -195,6 +195,9 @@ type g2lFn struct {
 	inClosure bool
 	labels    map[string]int    // top-level labels of the body -> statement index
 	effType  string
+	labelFrames  []*labelFrame
+	gotoVars     map[string]bool // results of a goto issued inside a loop: the code up to `pure (Ctl.ret g)` leaves the loop
+	inlineRanges [][2]token.Pos // source ranges of the functions whose bodies are being compiled inline
 	nilAlias map[types.Object]bool // inlined pointer parameters whose argument is nil
 	pendingLabel string
 	loopLabels   map[string]labelTarget
